@@ -17,7 +17,7 @@ from mc.ref import table as T
 PROPERTY = "C05"
 LEVEL = "exploration"
 RULE = ("cases = every table of 1..K rows (K=2 quick, 3 thorough) over 30 row kinds (good; surrounding blanks; embedded comma/semicolon/tab; "
-        "embedded newline; doubled quote; Unicode; Unicode line-separator characters inside a cell; short by one and by two cells; long; blank line; all-empty cells; bad date; empty description; "
+        "embedded newline; doubled quote; Unicode; Unicode line-separator characters inside a cell; short by one and by two cells; long; blank line; all-empty cells; bad date (out-of-range, 2-digit year, 3-digit month, underscore, sign, unpadded, other format); empty description; "
         "amount cells abc, empty, 0, 0.00, -0, nan, inf, -Infinity, (12.50), $1,234.50, 1.234,50, EUR 7, 1.234, 12,500, -45.10), each run under "
         "7 layouts (skip column, location, extra field mid/last, description template with capture last, '%d %b %y' dates) x 4 delimiters (comma, ';', "
         "tab, regex:) x header/no header x decimal '.'/',' x sign {amount}/{-amount}/{+amount}/negate_amount override. non-trivial = table with "
@@ -39,6 +39,9 @@ KINDS = [
     K("newline", D2, "LINE1\nLINE2", "5.00"), K("dquote", D2, 'SAY "HI"', "6.00"), K("unicode", D3, "Zoë's CAFÉ 日本", "8.00"), K("unisep", D2, "LINE\u2028SEP\x0bVT\x85NEL\x1cFS", "4.00"),
     K("short1", shape="short1"), K("short2", shape="short2"), K("long", shape="long"), K("blankline", shape="blank"),
     K("allempty", shape="empty"), K("baddate", "13/45/2025"), K("emptydesc", D2, "   ", "9.00"),
+    # date cells that only a strict reading of the format rejects / accepts (strptime is the definition of "matches the format")
+    K("d-yy", "01/16/25", "YY SHOP", "3.00"), K("d-pad3", "001/17/2025", "PAD SHOP", "3.10"), K("d-under", "1_1/18/2025", "UND SHOP", "3.20"),
+    K("d-plus", "01/+2/2025", "PLUS SHOP", "3.30"), K("d-nopad", "1/5/2025", "NOPAD SHOP", "3.40"), K("d-iso", "2025-01-20", "ISO SHOP", "3.50"),
     K("a-abc", amt="abc"), K("a-empty", amt=""), K("a-0", amt="0"), K("a-0.00", amt="0.00"), K("a-neg0", amt="-0"),
     K("a-nan", amt="nan"), K("a-inf", amt="inf"), K("a-neginf", amt="-Infinity"), K("a-paren", amt="(12.50)"),
     K("a-usd", amt="$1,234.50"), K("a-eu", amt="1.234,50"), K("a-eur7", amt="€ 7"), K("a-1.234", amt="1.234"),
